@@ -57,10 +57,15 @@ structure Out where
 
 /-- `async with management.connection(x) as c: return await nm_individual_address_check_conn(c)` wrapped in
 `nm_individual_address_check` (a refusal, also the one raised by `disconnect()` on leaving, means "occupied"). -/
-def checkAddress (bus : Bus) (x : Nat) : Bool × List Tel × List (Nat × Nat) :=
+def refusedTels (sync : Bool) (x : Nat) : List Tel :=
+  -- `sync`: the T_Disconnect is processed while the T_Connect send is still awaited, so `request()` already finds the
+  -- connection closed and sends nothing; otherwise it arrives while the ACK of the first request is awaited
+  if sync then [.conn x] else [.conn x, .data x 0 .ddr]
+
+def checkAddress (sync : Bool) (bus : Bus) (x : Nat) : Bool × List Tel × List (Nat × Nat) :=
   if 0 < countAt bus x .refuses then
-    -- T_Disconnect arrives while the ACK is awaited: ManagementConnectionRefused; nothing more is sent
-    (true, [.conn x, .data x 0 .ddr], [])
+    -- ManagementConnectionRefused; nothing more is sent
+    (true, refusedTels sync x, [])
   else if 0 < countAt bus x .answers then
     -- every answering device sends T_ACK + response 0; the first is taken, the repetitions are acknowledged again
     (true, [.conn x, .data x 0 .ddr, .disc x], List.replicate (countAt bus x .answers) (x, 0))
@@ -82,10 +87,10 @@ def restartAt (bus : Bus) (x : Nat) : Bus :=
   bus.map fun d => if d.addr = x ∧ d.beh = .answers then { d with prog := false } else d
 
 /-- Last part of `nm_individual_address_write`: connect, check, restart, disconnect. -/
-def restartSession (bus : Bus) (x : Nat) : Out :=
+def restartSession (sync : Bool) (bus : Bus) (x : Nat) : Out :=
   if 0 < countAt bus x .refuses then
     -- check says "occupied"; `send_data` and then `disconnect()` raise ManagementConnectionRefused
-    { res := .refused, tels := [.conn x, .data x 0 .ddr], acks := [], bus := bus }
+    { res := .refused, tels := refusedTels sync x, acks := [], bus := bus }
   else if 0 < countAt bus x .answers then
     { res := .ok, tels := [.conn x, .data x 0 .ddr, .data x 1 .restart, .disc x],
       acks := List.replicate (countAt bus x .answers) (x, 0), bus := restartAt bus x }
@@ -93,8 +98,8 @@ def restartSession (bus : Bus) (x : Nat) : Out :=
     { res := .err, tels := [.conn x, .data x 0 .ddr, .data x 0 .ddr, .disc x], acks := [], bus := bus }
 
 /-- `nm_individual_address_write(xknx, target)`. -/
-def addrWrite (bus : Bus) : Out :=
-  let c := checkAddress bus target           -- (address found, telegrams, T_ACKs)
+def addrWrite (sync : Bool) (bus : Bus) : Out :=
+  let c := checkAddress sync bus target           -- (address found, telegrams, T_ACKs)
   let fail : Out := { res := .err, tels := c.2.1 ++ [.bRead], acks := c.2.2, bus := bus }
   match progAddrs bus with
   | [] => fail                               -- no device in programming mode
@@ -103,10 +108,10 @@ def addrWrite (bus : Bus) : Out :=
     if c.1 then
       if p ≠ target then fail                -- address occupied by another device
       else
-        let r := restartSession bus target   -- device already has the address: restart only
+        let r := restartSession sync bus target   -- device already has the address: restart only
         { r with tels := c.2.1 ++ [.bRead] ++ r.tels, acks := c.2.2 ++ r.acks }
     else
-      let r := restartSession (writeAddr bus target) target
+      let r := restartSession sync (writeAddr bus target) target
       { r with tels := c.2.1 ++ [.bRead, .bWrite target] ++ r.tels, acks := c.2.2 ++ r.acks }
 
 /-- `dm_restart(xknx, target)`: nothing is awaited, so the outcome does not depend on the population. -/
@@ -222,12 +227,22 @@ def showOut (o : Out) : String := renderOut o.res o.tels o.acks (o.bus.map Dev.r
 def handle : List String → String
   | ["write", pop] =>
     match parsePop parseDev pop with
-    | some bus => showOut (addrWrite bus)
+    | some bus => showOut (addrWrite false bus)
+    | none => "bad-op"
+  | ["writes", pop] =>
+    match parsePop parseDev pop with
+    | some bus => showOut (addrWrite true bus)
     | none => "bad-op"
   | ["check", pop] =>
     match parsePop parseDev pop with
     | some bus =>
-      let (found, t, a) := checkAddress bus target
+      let (found, t, a) := checkAddress false bus target
+      renderOut (.okBool found) t a (bus.map Dev.render)
+    | none => "bad-op"
+  | ["checks", pop] =>
+    match parsePop parseDev pop with
+    | some bus =>
+      let (found, t, a) := checkAddress true bus target
       renderOut (.okBool found) t a (bus.map Dev.render)
     | none => "bad-op"
   | ["read", r, pop] =>
